@@ -29,14 +29,19 @@ Print Assumptions C05_float_re.
 (* ---- the rule functions: a clause exactly when the value is outside the language ---- *)
 Theorem C05_phone : forall vn obj field s, violated (rPhone vn obj field (VStr s)) = negb (phone_spec (decode s)).
 Proof. exact phone_rule. Qed.
+Print Assumptions C05_phone.
 Theorem C05_email : forall vn obj field s, violated (rEmail vn obj field (VStr s)) = negb (email_spec (decode s)).
 Proof. exact email_rule. Qed.
+Print Assumptions C05_email.
 Theorem C05_idcard : forall vn obj field s, violated (rIDCard vn obj field (VStr s)) = negb (idcard_spec (decode s)).
 Proof. exact idcard_rule. Qed.
+Print Assumptions C05_idcard.
 Theorem C05_int : forall vn obj field v b, in_language FInt v = Some b -> violated (rInt vn obj field v) = negb b.
 Proof. exact int_rule. Qed.
+Print Assumptions C05_int.
 Theorem C05_float : forall vn obj field v b, in_language FFloat v = Some b -> violated (rFloat vn obj field v) = negb b.
 Proof. exact float_rule. Qed.
+Print Assumptions C05_float.
 Theorem C05_ints : forall vn obj field v b, in_language (FInts (ints_sep vn)) v = Some b -> violated (rInts vn obj field v) = negb b.
 Proof. exact ints_rule. Qed.
 Theorem C05_unique : forall vn obj field v b, in_language FUnique v = Some b -> violated (rUnique vn obj field v) = negb b.
@@ -44,9 +49,11 @@ Proof. exact unique_rule. Qed.
 Theorem C05_prefix : forall vn obj field s p, trim [QUOTE] (pk_val vn) = p ->
   violated (rPrefix vn obj field (VStr s)) = negb (has_prefix s p).
 Proof. exact prefix_rule. Qed.
+Print Assumptions C05_prefix.
 Theorem C05_suffix : forall vn obj field s p, trim [QUOTE] (pk_val vn) = p ->
   violated (rSuffix vn obj field (VStr s)) = negb (has_suffix s p).
 Proof. exact suffix_rule. Qed.
+Print Assumptions C05_suffix.
 Print Assumptions C05_ints.
 Print Assumptions C05_unique.
 
@@ -61,6 +68,7 @@ Theorem C05_include : forall vn obj field s opts,
   pk_key vn = s2b "include" -> in_opts (pk_val vn) = Some opts ->
   violated (in_like vn obj field (VStr s)) = negb (existsb (fun o => contains s o) opts).
 Proof. exact include_rule. Qed.
+Print Assumptions C05_include.
 (* the builder's (o1/o2/...) is read back as the options; PARTIAL: options without quotes and
    slashes (quoted options containing '/' are covered by the correspondence only) *)
 Theorem C05_in_builder_partial : forall opts, opts <> [] ->
@@ -83,21 +91,26 @@ Theorem C05_ip_wiring : forall orc vn obj field s,
   violated (rIpv4 orc vn obj field (VStr s)) = negb (fst (ip_lookup orc s) && snd (ip_lookup orc s)) /\
   violated (rIpv6 orc vn obj field (VStr s)) = negb (fst (ip_lookup orc s) && negb (snd (ip_lookup orc s))).
 Proof. exact ip_rules. Qed.
+Print Assumptions C05_ip_wiring.
 Theorem C05_json_wiring : forall orc vn obj field s, violated (rJson orc vn obj field (VStr s)) = negb (json_ok orc s).
 Proof. exact json_rule. Qed.
+Print Assumptions C05_json_wiring.
 Theorem C05_file_dir_wiring : forall orc vn obj field s is_dir e, stat_lookup orc s = Some (is_dir, e) ->
   violated (rFile orc vn obj field (VStr s)) = is_dir /\ violated (rDir orc vn obj field (VStr s)) = negb is_dir.
 Proof. exact file_dir_rules. Qed.
+Print Assumptions C05_file_dir_wiring.
 Theorem C05_date_wiring : forall orc vn obj field s,
   violated (rYear orc vn obj field (VStr s)) = negb (time_ok orc (s2b "2006") s) /\
   violated (rYear2Month orc vn obj field (VStr s)) = negb (time_ok orc (s2b "2006" ++ date_split vn ++ s2b "01") s) /\
   violated (rDate orc vn obj field (VStr s)) =
     negb (time_ok orc (s2b "2006" ++ date_split vn ++ s2b "01" ++ date_split vn ++ s2b "02") s).
 Proof. exact date_rules. Qed.
+Print Assumptions C05_date_wiring.
 Theorem C05_datetime_wiring : forall orc vn obj field s a b c, datetime_splits vn = [a; b; c] ->
   violated (rDatetime orc vn obj field (VStr s)) =
     negb (time_ok orc (s2b "2006" ++ a ++ s2b "01" ++ a ++ s2b "02" ++ b ++ s2b "15" ++ c ++ s2b "04" ++ c ++ s2b "05") s).
 Proof. exact datetime_rule. Qed.
+Print Assumptions C05_datetime_wiring.
 (* re: the pattern given to the engine is the text between the protecting quotes, escaped quotes
    (backslash quote), alternation bars and commas included *)
 Theorem C05_re_pattern : forall orc vn obj field s p msg_part,
